@@ -28,10 +28,11 @@ type State struct {
 	havoc map[*Obj]int // >0: unwritten cells are unknown (fresh), value = epoch
 	dirty map[*Obj]bool
 	born  map[*Obj]bool // objects allocated on the way to this point
+	ment  map[*Obj][]mapEntry // symbolic-key updates of map objects, in order
 }
 
 func newState() *State {
-	return &State{cells: map[*Obj]map[string]Val{}, havoc: map[*Obj]int{}, dirty: map[*Obj]bool{}, born: map[*Obj]bool{}}
+	return &State{cells: map[*Obj]map[string]Val{}, havoc: map[*Obj]int{}, dirty: map[*Obj]bool{}, born: map[*Obj]bool{}, ment: map[*Obj][]mapEntry{}}
 }
 
 func (s *State) clone() *State {
@@ -51,6 +52,9 @@ func (s *State) clone() *State {
 	}
 	for o, v := range s.born {
 		n.born[o] = v
+	}
+	for o, v := range s.ment {
+		n.ment[o] = append([]mapEntry(nil), v...)
 	}
 	return n
 }
